@@ -159,6 +159,12 @@ fn build_reply(k: &KeySpec, recs: &[(u8, u32)]) -> dns::Message {
         }],
         ..Default::default()
     };
+    // any response code may come with records (a resolver answers SERVFAIL with the resolved
+    // head of a CNAME chain, NXDOMAIN with the SOA, ...): the records' TTLs rule whatever the
+    // code is.  Derived from the records so that older replay files keep their meaning.
+    if let Some((_, t0)) = recs.first() {
+        m.header.rcode = [0u8, 0, 0, 0, 0, 2, 2, 3, 5, 1][(recs.len() * 7 + *t0 as usize) % 10];
+    }
     for (i, (sec, ttl)) in recs.iter().enumerate() {
         let r = dns::Rr {
             name: k.name.clone(),
